@@ -170,7 +170,7 @@ reg("C20", ["c20_sx.c"],
          "48879} (unranked from a counting recurrence; every 23rd tree from a seeded offset in quick, all in "
          "thorough), rendered with three whitespace policies and decimal / #x lower / #x upper / mixed number "
          "formats, with and without trailing material, parsed NUL-terminated, length-delimited (exact-size "
-         "poisoned block without terminator) and with sx_parse() from a start offset behind other text; integers with leading zeros in fields of 19..1000 digits; every character a symbol may start or continue with, alone and inside lists; 'strings-N': every string of length N <= 5 (quick) / <= 7 (thorough) "
+         "poisoned block without terminator) and with sx_parse() from a start offset behind other text; integers with leading zeros in fields of 19..1000 digits; every character a symbol may start or continue with, alone and inside lists; every octet outside the token classes (controls, quotes, brackets, 80..ff) in twelve positions: error, no tree; 'strings-N': every string of length N <= 5 (quick) / <= 7 (thorough) "
          "over '( ) space newline a 1 0 # x F' judged by a reference reader (verdict, tree, position); 'random': "
          "parenthesis-heavy random strings up to 39 characters. Every case checks the allocation ledger (bytes "
          "allocated before the parse == after sx_destroy) and, on error, that no tree is returned. A signature is "
@@ -344,7 +344,8 @@ reg("C08", ["c08_regp_emit.c"],
          "one; allocators are of the generic or the slab type, alternately) "
          "encoder and then received by a peer instance. 'nested': a request issued from inside the sink driver when it "
          "holds the last octet of the previous request (transmit-complete hook): two complete frames with successive "
-         "sequence numbers. A signature is a (unit, round); evaluations counts emissions.")
+         "sequence numbers. 'early': the busy and receive-overflow replies the receiver sends on its own account, compared "
+         "with the reference and fed to a second instance. A signature is a (unit, round); evaluations counts emissions.")
 
 reg("C07", ["c07_regp_corrupt.c"], level="fault_enumeration",
     rule="'mutate': corpus from the reference encoder (serial options): read requests, write requests and read "
